@@ -181,6 +181,10 @@ func (s *SubmitSmResp) IDecode(data []byte) error {
 	defer r.Release()
 
 	s.Header = smpp.ReadHeader(r)
+	// SMPP 3.4 §4.4.2: the submit_sm_resp body is not returned if command_status is non-zero
+	if s.Header.Status != smpp.ESME_ROK && r.Error() == nil && r.Remaining() == 0 {
+		return nil
+	}
 	s.MessageID = r.ReadCString()
 
 	return r.Error()
